@@ -65,35 +65,79 @@ theorem loop_written (ign : Bool) (pkgs : List Pkg) (hw : Writable pkgs) (se : B
       · rename_i hpr; rw [ih hw']; simp [List.filter_cons, hc', hpr]
       · rename_i hpr; exact absurd hpr hp
 
+/-- the output paths of the matched packages are pairwise different -/
+def Distinct (pkgs : List Pkg) : Prop := (pkgs.map outPath).Nodup
+
+/-- When no two packages share an output path the collision test of the loop never fires. -/
+theorem loopC_eq_loop (ign : Bool) (pkgs : List Pkg) (hd : Distinct pkgs) (se : Bool) (w u seen : List String)
+    (hs : ∀ p ∈ pkgs, outPath p ∉ seen) : loopC ign pkgs se w u seen = loop ign pkgs se w u := by
+  induction pkgs generalizing se w u seen with
+  | nil => simp [loopC, loop]
+  | cons p ps ih =>
+    have hd2 : (outPath p :: ps.map outPath).Nodup := by unfold Distinct at hd; rwa [List.map_cons] at hd
+    have hd' : Distinct ps := (List.nodup_cons.mp hd2).2
+    have hpn : ∀ q ∈ ps, outPath q ≠ outPath p := by
+      intro q hq heq
+      exact (List.nodup_cons.mp hd2).1 (heq ▸ List.mem_map_of_mem (f := outPath) hq)
+    have hps : outPath p ∉ seen := hs p List.mem_cons_self
+    have hs' : ∀ q ∈ ps, outPath q ∉ seen := fun q hq => hs q (List.mem_cons_of_mem _ hq)
+    have hs'' : ∀ q ∈ ps, outPath q ∉ outPath p :: seen := by
+      intro q hq hm
+      rcases List.mem_cons.mp hm with h | h
+      · exact hpn q hq h
+      · exact hs' q hq h
+    simp only [loopC, loop]
+    split
+    · exact ih hd' _ _ _ _ hs'
+    · have hc : seen.contains (outPath p) = false := by simpa using hps
+      simp only [hc, Bool.false_eq_true, ↓reduceIte]
+      split
+      · exact ih hd' _ _ _ _ hs''
+      · exact ih hd' _ _ _ _ hs''
+      · exact ih hd' _ _ _ _ hs''
+      · rfl
+
+theorem run_eq_loop (ign : Bool) (pkgs : List Pkg) (hd : Distinct pkgs) :
+    run false ign pkgs = loop ign pkgs false [] [] := by
+  simp only [run, Bool.false_eq_true, ↓reduceIte]
+  exact loopC_eq_loop ign pkgs hd false [] [] [] (by simp)
+
 /-- goose exits 0 exactly when every matched package translated without error (no pattern
-error, and nothing in the way of the output files). -/
-theorem exit_zero_iff (patternErr ign : Bool) (pkgs : List Pkg) (hw : Writable pkgs) :
+error, nothing in the way of the output files, no two packages with the same output path). -/
+theorem exit_zero_iff (patternErr ign : Bool) (pkgs : List Pkg) (hw : Writable pkgs) (hd : Distinct pkgs) :
     (run patternErr ign pkgs).exit = 0 ↔ patternErr = false ∧ ∀ p ∈ pkgs, p.hasErr = false := by
-  unfold run
   cases patternErr
-  · simp only [Bool.false_eq_true, ↓reduceIte, true_and]
+  · rw [run_eq_loop ign pkgs hd]
     have := loop_exit ign pkgs hw false [] []
     simpa using this
-  · simp
+  · simp [run]
+
+/-- Two packages whose import paths map to the same output file (`m/a-b` and `m/a_b`): the run fails and the second
+translation does not overwrite the first (before repair c3c81c9 the command exited 0 with one file). -/
+theorem colliding_packages_fail (ign : Bool) (p q : Pkg) (hp : p.hasErr = false) (hq : q.hasErr = false)
+    (hpp : p.prior = .absent) (hsame : outPath q = outPath p) :
+    (run false ign [p, q]).exit = 1 ∧ (run false ign [p, q]).written = [outPath p] := by
+  simp [run, loopC, hp, hq, hpp, hsame]
 
 /-- Files (re)written: one per package that translated (or any package, under -ignore-errors)
 whose existing file does not already have that content, at the path derived from its import
 path; a package with a conversion error writes nothing without -ignore-errors, and a package that
 has no translation at all (load error, refused for reaching two FFIs) writes nothing ever. -/
-theorem files_written (ign : Bool) (pkgs : List Pkg) (hw : Writable pkgs) :
+theorem files_written (ign : Bool) (pkgs : List Pkg) (hw : Writable pkgs) (hd : Distinct pkgs) :
     (run false ign pkgs).written =
       (pkgs.filter (fun p => (!p.hasErr || (ign && !p.noOutput)) && p.prior != .same)).map (fun p => importToPath p.pkgPath) := by
+  rw [run_eq_loop ign pkgs hd]
   have := loop_written ign pkgs hw false [] []
-  simp only [run, Bool.false_eq_true, ↓reduceIte, List.reverse_nil, List.nil_append] at this ⊢
+  simp only [List.reverse_nil, List.nil_append] at this
   rw [this]
   rfl
 
 /-- A file whose content would not change is not rewritten. -/
-theorem unchanged_not_rewritten (ign : Bool) (pkgs : List Pkg) (hw : Writable pkgs) (p : Pkg)
+theorem unchanged_not_rewritten (ign : Bool) (pkgs : List Pkg) (hw : Writable pkgs) (hd : Distinct pkgs) (p : Pkg)
     (hp : p ∈ pkgs) (hs : p.prior = .same)
     (hinj : ∀ q ∈ pkgs, outPath q = outPath p → q.prior = .same) :
     outPath p ∉ (run false ign pkgs).written := by
-  rw [files_written ign pkgs hw]
+  rw [files_written ign pkgs hw hd]
   simp only [List.mem_map, List.mem_filter, not_exists, not_and]
   intro q ⟨hq, hc⟩ heq
   have := hinj q hq (by simpa [outPath] using heq)
@@ -103,10 +147,15 @@ theorem unchanged_not_rewritten (ign : Bool) (pkgs : List Pkg) (hw : Writable pk
 theorem pattern_error (ign : Bool) (pkgs : List Pkg) :
     (run true ign pkgs).exit = 1 ∧ (run true ign pkgs).written = [] := by simp [run]
 
-/-! ### non-vacuity -/
+/-! ### non-vacuity
 
-example : (run false false
-    [{ pkgPath := "m/a", hasErr := false, prior := .absent }, { pkgPath := "m/b", hasErr := true, prior := .different },
-     { pkgPath := "m/c", hasErr := false, prior := .same }]).exit = 1 := by decide
+(Concrete runs — which need the string functions of `importToPath` to be evaluated — are compared with the real command by
+pylib/c17.py through `driver cli`; here: the hypotheses of the theorems are satisfiable.) -/
+
+example : Writable [{ pkgPath := "m/a", hasErr := false, prior := .absent }, { pkgPath := "m/b", hasErr := true, prior := .different }] := by
+  intro p hp; simp at hp; rcases hp with rfl | rfl <;> simp
+example : Distinct [] := List.nodup_nil
+example : ∃ p q : Pkg, p.hasErr = false ∧ q.hasErr = false ∧ p.prior = .absent ∧ outPath q = outPath p :=
+  ⟨{ pkgPath := "m/a_b", hasErr := false, prior := .absent }, { pkgPath := "m/a_b", hasErr := false, prior := .different }, rfl, rfl, rfl, rfl⟩
 
 end GooseVerif.Props.C17
